@@ -2,6 +2,7 @@ package main
 
 import (
 	"fmt"
+	"math"
 	"strings"
 
 	geom "github.com/twpayne/go-geom"
@@ -122,6 +123,47 @@ func genC13(r *Rng, e *Emitter, n int) {
 		}
 	}
 	e.tally(fmt.Sprintf("exhaustive-3x3-upto-%d", maxLen))
+	// points handed over in drawing order (a ring somebody traced): a convex ring in either direction,
+	// the same vertices visited every second / third one (a star: the path turns the same way at every
+	// vertex and winds round more than once), a limacon with an inner loop; more than 50 of them
+	for i := 0; i < n/60+8; i++ {
+		stride := 2 + r.Intn(5)
+		m := 51 + r.Intn(80)
+		R := float64(int(1)<<(10+r.Intn(10))) * (1 + r.Float64())
+		step, kind := 1, r.Intn(4)
+		switch kind {
+		case 1:
+			step = 2
+			if m%2 == 0 {
+				m++
+			}
+		case 2:
+			step = 3
+			for m%3 == 0 {
+				m++
+			}
+		}
+		ph := r.Float64() * 2 * math.Pi
+		dir := float64(1 - 2*r.Intn(2))
+		flat := make([]float64, 0, m*stride)
+		for k := 0; k < m; k++ {
+			var x, y float64
+			if kind == 3 { // limacon r = 2 + cos(t/2), t over two turns
+				t := 4 * math.Pi * float64(k) / float64(m)
+				rr := R * (2 + math.Cos(t/2)) / 3
+				x, y = rr*math.Cos(dir*t+ph), rr*math.Sin(dir*t+ph)
+			} else {
+				t := 2 * math.Pi * float64(k*step%m) / float64(m)
+				x, y = R*math.Cos(dir*t+ph), R*math.Sin(dir*t+ph)
+			}
+			flat = append(flat, math.Round(x), math.Round(y))
+			for o := 2; o < stride; o++ {
+				flat = append(flat, float64(r.Intn(1000)))
+			}
+		}
+		e.tally(fmt.Sprintf("drawing-order-kind=%d", kind))
+		emitHull(e, r, stride, flat)
+	}
 	grids := []int{3, 5, 15, 200, 1 << 20}
 	for i := 0; i < n; i++ {
 		stride := 2 + r.Intn(5)
